@@ -283,6 +283,17 @@ where
                         Poll::Ready(result) => result,
                         // The connection is not ready to make progress
                         Poll::Pending => {
+                            // An acknowledgement (PONG or SETTINGS ACK) that is
+                            // waiting for the codec goes out before any further
+                            // stream frame: `poll_complete` must not hand the
+                            // capacity it was waiting for to a DATA frame.
+                            if self.inner.ping_pong.is_pong_pending()
+                                || self.inner.settings.is_ack_pending()
+                            {
+                                ready!(self.codec.poll_ready(cx))?;
+                                continue;
+                            }
+
                             // Ensure all window updates have been sent.
                             //
                             // This will also handle flushing `self.codec`
